@@ -3,7 +3,7 @@
 From Coq Require Import List NArith Bool Arith Lia.
 From AdltV Require Import Pipe.Incr.
 Import ListNotations.
-Open Scope N_scope.
+Local Open Scope N_scope.
 
 Section IncrProofs.
   Context {msg info : Type}.
